@@ -93,12 +93,6 @@ def validate_notebook(nb):
                     errs.append(('/cells/*(code)/outputs/*', 'output_type', 'unknown output_type %r' % (ot,)))
                     continue
                 errs.extend(_errors(_validator(minor, OUTPUT_DEFS[ot]), o, '/cells/*(code)/outputs/*(%s)' % ot))
-    # ids must be unique in 4.5
-    if minor >= 5:
-        ids = [c.get('id') for c in cells if isinstance(c, dict)]
-        sids = [i for i in ids if isinstance(i, str)]
-        if len(set(sids)) != len(sids):
-            errs.append(('/cells/*/id', 'unique', 'duplicate cell id'))
     return errs
 
 
